@@ -266,7 +266,9 @@ func c06Run(c *engine.Ctx) {
 func nlvOne(c *engine.Ctx, form string, seq []int, render func([]int) (string, string)) {
 	text, tname := render(seq)
 	class := "C06|nlv-method|NaturalLanguageValues|" + form
-	c.Do(class, func() string { return fmt.Sprintf("NaturalLanguageValues %q [%s] as %s through its own MarshalJSON/UnmarshalJSON", text, tname, form) }, func(t *engine.T) {
+	c.Do(class, func() string {
+		return fmt.Sprintf("NaturalLanguageValues %q [%s] as %s through its own MarshalJSON/UnmarshalJSON", text, tname, form)
+	}, func(t *engine.T) {
 		t.Distinct(strings.Trim(text, "abcdefghijklmnopqrstuvwxyz ") != "")
 		var n ap.NaturalLanguageValues
 		other := ap.LangRefValue{Ref: "fr", Value: ap.Content("autre texte")}
